@@ -97,6 +97,7 @@ def optDflt (j : Json) (k : String) : Except String (Option Dflt) :=
 def attrOfStr : String → Except String AttrVal
   | "bool" => pure .bool | "list" => pure .list | "dict" => pure .dict
   | "bareType" => pure .bareType | "generic" => pure .generic | "other" => pure .other
+  | "union" => pure .union
   | s => throw s!"attr kind {s}"
 
 def entryOfJson (j : Json) : Except String SrcEntry := do
